@@ -18,6 +18,9 @@ for sid in sorted(os.listdir(os.path.join(VERIF, "seeded"))):
         continue
     meta = json.load(open(mp))
     prop = meta["property"]
+    if meta.get("obsolete"):
+        rows.append((sid, prop, "obsolete: " + meta["obsolete"], {"-": "obsolete"}))
+        continue
     if only and not any(sid.startswith(o) for o in only):
         v = meta.get("detected_by", {}).get("checks", {})
         rows.append((sid, prop, "; ".join(f"{p}: {x}" for p, x in v.items()) or "(not run)", v))
@@ -60,4 +63,6 @@ with open(os.path.join(VERIF, "seeded", "RESULTS.md"), "w") as fh:
     for sid, prop, txt, _ in rows:
         fh.write(f"| {sid} | {prop} | {txt} |\n")
     n = sum(1 for r in rows if any(v.startswith("VIOLATION") for v in r[3].values()))
-    fh.write(f"\n{n} of {len(rows)} seeded changes are reported as VIOLATION by at least one check; the others are UNDECIDED (construct outside Verus' subset / lost anchor) or in functions not under contract.\n")
+    live = [r for r in rows if r[3].get("-") != "obsolete"]
+    fh.write(f"\n{len(rows) - len(live)} seeds are obsolete (a later repair of /repo rewrote the code they change or made their input unacceptable).\n")
+    fh.write(f"\n{n} of {len(live)} live seeded changes are reported as VIOLATION by at least one check; the others are UNDECIDED (construct outside Verus' subset / lost anchor) or in functions not under contract.\n")
